@@ -1,2 +1,81 @@
-(* C13 - theorems follow in this commit series *)
-From TW Require Import Bytes.
+(* C13 - errors name the line (and file) of the faulty construct.
+   Every AST node of the model keeps the 1-based line on which its token ends (eline t = S (tel t));
+   that the lexer's tel is the number of line feeds before the token's last byte - however many
+   multi-line text runs, strings, comments or CRLF line ends precede it - is C19's theorem (counters =
+   position function at every reachable offset).  Proved here: which node's line each kind of fault
+   reports, and that every enclosing construct passes the error on unchanged; for loaded templates
+   the error carries the path of the template's own file.  The end-to-end statement (source text ->
+   reported line) is decided on generated instances: a single fault of each kind injected at a
+   position whose line is known by construction, behind every kind of multi-line token. *)
+From Coq Require Import String.
+From TW Require Import Bytes GenToken Lexer Ast Parser Values Builtins Eval Render Api ErrorLines.
+Open Scope N_scope.
+
+Theorem C13_node_line_is_where_its_token_ends t : eline t = S (tel t).
+Proof. exact (node_line_is_token_end_line t). Qed.
+Print Assumptions C13_node_line_is_where_its_token_ends.
+
+Theorem C13_unexpected_token_reports_the_peeked_token st t a b :
+  peekIs st t = false -> tokenString t = Some a -> tokenString (ttype (peekT st)) = Some b ->
+  expectPeek st t = (false, addErr st (eline (peekT st)) (fmt ErrWrongNextToken [a; b])).
+Proof. exact (unexpected_token_line st t a b). Qed.
+Print Assumptions C13_unexpected_token_reports_the_peeked_token.
+
+Theorem C13_undefined_identifier cx f en ln n :
+  env_get en n = None -> eval_expr cx (S f) en (EIdent ln n) = Fail ln (fmt ErrIdentifierNotFound [n]).
+Proof. exact (undefined_identifier_line cx f en ln n). Qed.
+Print Assumptions C13_undefined_identifier.
+
+Theorem C13_mistyped_operands_report_the_left_operand cx f en ln op l r lv rv ll :
+  eval_expr cx f en l = Ok lv -> eval_expr cx f en r = Ok rv -> expr_line l = Some ll ->
+  same_type lv rv = false ->
+  eval_expr cx (S f) en (EInfix ln op l r) = Fail ll (fmt ErrTypeMismatch [type_name lv; op; type_name rv]).
+Proof. exact (mistyped_operands_line cx f en ln op l r lv rv ll). Qed.
+Print Assumptions C13_mistyped_operands_report_the_left_operand.
+
+Theorem C13_division_by_zero cx f en ln l r a ll :
+  eval_expr cx f en l = Ok (VInt a) -> eval_expr cx f en r = Ok (VInt 0) -> expr_line l = Some ll ->
+  eval_expr cx (S f) en (EInfix ln (bs "/") l r) = Fail ll (fmt ErrDivisionByZero []) /\
+  eval_expr cx (S f) en (EInfix ln (bs "%") l r) = Fail ll (fmt ErrDivisionByZero []).
+Proof. exact (division_by_zero_line cx f en ln l r a ll). Qed.
+Print Assumptions C13_division_by_zero.
+
+Theorem C13_unknown_function cx f en ln recv fname args rv avs :
+  eval_expr cx f en recv = Ok rv -> has_func_table rv = true -> eval_exprs cx f en args = Ok avs ->
+  call_builtin fname rv avs = None -> lookup_custom cx (type_name rv) fname = None ->
+  eval_expr cx (S f) en (ECall ln recv fname args) = Fail ln (fmt ErrNoFuncForThisType [fname; type_name rv]).
+Proof. exact (unknown_function_line cx f en ln recv fname args rv avs). Qed.
+Print Assumptions C13_unknown_function.
+
+Theorem C13_unknown_property cx f en ln l kln k m i il :
+  eval_expr cx f en l = Ok (VObj m) -> alookup k m = None -> alookup (upper_first k) m = None ->
+  eval_expr cx (S f) en (EDot ln l (EIdent kln k)) = Fail ln (fmt ErrPropertyNotFound [k; bs "OBJECT"]) /\
+  (eval_expr cx f en i = Ok (VStr k) -> expr_line i = Some il ->
+   eval_expr cx (S f) en (EIndex ln l i) = Fail il (fmt ErrPropertyNotFound [k; bs "OBJECT"])).
+Proof.
+  intros Hl H1 H2. split; [exact (unknown_property_line_dot cx f en ln l kln k m Hl H1 H2)|].
+  intros Hi Hil. exact (unknown_property_line_bracket cx f en ln l i k m il Hl Hi Hil H1 H2).
+Qed.
+Print Assumptions C13_unknown_property.
+
+Theorem C13_enclosing_constructs_keep_the_line cx f en s ss out acc ln msg :
+  eval_stmt cx f en s = Fail ln msg ->
+  eval_program cx (S f) en (s :: ss) out = Fail ln msg /\ eval_block cx (S f) en (s :: ss) acc = Fail ln msg.
+Proof.
+  intro H. split; [exact (error_passes_through_program cx f en s ss out ln msg H)|
+                   exact (error_passes_through_block cx f en s ss acc ln msg H)].
+Qed.
+Print Assumptions C13_enclosing_constructs_keep_the_line.
+
+Theorem C13_render_reports_line_and_file cx cfg tpl name data en ss ln msg :
+  env_from_map data = EnvOk en -> alookup name tpl = Some ss ->
+  eval_program cx eval_fuel en ss [] = Fail ln msg ->
+  template_string cx cfg tpl name data = StrErr (mkErr ln (template_path cfg name) msg).
+Proof. exact (template_error_names_its_file cx cfg tpl name data en ss ln msg). Qed.
+Print Assumptions C13_render_reports_line_and_file.
+
+Theorem C13_load_error_names_the_parsed_file fs rel content ln msg rest :
+  read_file fs rel = ReadOk content -> parse_source content = ParseErrors ((ln, msg) :: rest) ->
+  parse_file fs rel = LOk (PFail (mkErr ln (abs_path rel) msg)).
+Proof. exact (load_error_names_the_parsed_file fs rel content ln msg rest). Qed.
+Print Assumptions C13_load_error_names_the_parsed_file.
